@@ -14,5 +14,9 @@ let handle = function
      | (Res.Panic, _) -> "PANIC")
   | ["serve"; out; reqs] -> Stdlib.String.concat "," (Stdlib.List.map hex_of_bytes (Fill.serve (bytes_of_hex out) (ns_of reqs)))
   | ["lwrun"; w; chunks] -> hex_of_bytes (LineWriter.lw_run (nn w) (chunks_of chunks))
+  | ["rfb"; ahead; limit; pieces] ->
+    (match Reassemble.rfb_line (nn ahead) (nn limit) (chunks_of pieces) with
+     | (Some l, rest) -> "OK " ^ hex_of_bytes l ^ " " ^ hex_of_bytes rest
+     | (None, _) -> "ERR")
   | _ -> "MODEL-ERROR unknown op"
 let () = run handle
